@@ -6,9 +6,9 @@ WT=$(mktemp -d /tmp/confwt.XXXXXX); rmdir $WT
 git -C /repo worktree add -q --detach $WT HEAD || exit 3
 trap "git -C /repo worktree remove --force $WT 2>/dev/null; rm -rf $WT" EXIT
 cd $WT
-PYTHONPATH=$WT timeout 900 /venv/bin/python $DEMO $WT >/tmp/confirm_demo_clean.log 2>&1; rc_clean=$?
+PYTHONPATH=$WT timeout 900 /venv/bin/python $DEMO $WT >/tmp/confirm_demo_clean.$$.log 2>&1; rc_clean=$?
 git apply $PATCH || { echo "PATCH DOES NOT APPLY"; exit 3; }
-PYTHONPATH=$WT timeout 900 /venv/bin/python $DEMO $WT >/tmp/confirm_demo_mut.log 2>&1; rc_mut=$?
+PYTHONPATH=$WT timeout 900 /venv/bin/python $DEMO $WT >/tmp/confirm_demo_mut.$$.log 2>&1; rc_mut=$?
 tests=$(PYTHONPATH=$WT /venv/bin/python -m pytest -q -p no:cacheprovider -n 12 --no-cov --timeout=900 -q 2>&1 | tail -1)
 echo "demo on unchanged tree: exit $rc_clean; demo with change: exit $rc_mut; tests with change: $tests"
-tail -5 /tmp/confirm_demo_mut.log
+tail -5 /tmp/confirm_demo_mut.$$.log
